@@ -39,7 +39,26 @@ structure Case where
   h : Res
   b : Res
   fc : Res
+  fcs : Res := .skip          -- FromCypher with stripLiterals = true
+  cy : Option Str := none     -- the Cypher text of the header for stripLiterals = false (trimmed)
+  cys : Option Str := none    -- … for stripLiterals = true
+  fmtstrip : Res := .skip     -- the statement formatted with OutputBuilder.StripLiterals = true (skip = same text)
+  math : Res := .skip         -- the statement formatted with OutputBuilder.MaterializeParameters = true, hostile
+  matb : Res := .skip         -- … benign twin
   deriving Repr, Inhabited
+
+/-- the option parameters of the entry points and the values the suite runs every case under (compared with the
+harness's own table by the `o` op and with the extracted signatures by Props/C04Sites `entry_options_exercised`) -/
+def exercisedOptions : List (String × String × List String) := [
+  ("translate.FromCypher", "stripLiterals", ["false", "true"]),
+  ("cypherformat.NewCypherEmitter", "stripLiterals", ["false", "true"]),
+  ("cypherformat.RegularQuery", "stripLiterals", ["false", "true"]),
+  ("cypherformat.Emitter", "StripLiterals", ["false", "true"]),
+  ("format.OutputBuilder", "MaterializeParameters", ["false", "true"]),
+  ("format.OutputBuilder", "StripLiterals", ["false", "true"])]
+
+def renderOptions (os : List (String × String × List String)) : String :=
+  ";".intercalate (os.map (fun o => o.1 ++ "." ++ o.2.1 ++ "=" ++ ",".intercalate o.2.2))
 
 structure Verdict where
   pass : Bool
@@ -292,12 +311,39 @@ def judgeOk (c : Case) (sqlH : Str) (pgxH : Int) (pH : List (String × PVal))
     else if pgxB ≥ 0 && pgxB != (paramNames tb).length then
       fail "pgx-param-mismatch" s!"benign: pgx rewrites {pgxB} named arguments, the lexer sees {(paramNames tb).length}"
     else
-      match c.fc with
-      | .ok fsql _ _ =>
-        if lexFast fsql == th then
-          { pass := true, cls := if k1 + k2 > 0 then "reached" else "unreached", occ := k1 + k2, ntoks := th.length, nested := nh.length }
-        else { pass := false, cls := "comment-escape", detail := "FromCypher text (statement preceded by the Cypher text as -- comment) does not lex to the statement's tokens", ntoks := th.length }
-      | _ => { pass := true, cls := if k1 + k2 > 0 then "reached" else "unreached", occ := k1 + k2, ntoks := th.length, nested := nh.length }
+      let okV : Verdict := { pass := true, cls := if k1 + k2 > 0 then "reached" else "unreached", occ := k1 + k2, ntoks := th.length, nested := nh.length }
+      let bad (cls detail : String) : Verdict := { pass := false, cls := cls, detail := detail, ntoks := th.length }
+      -- FromCypher under both values of stripLiterals: the text must lex to the statement's tokens, and it must be the
+      -- modelled header (commentHeader) followed by the statement
+      let fcCheck (r : Res) (text : Option Str) (strip : Bool) : Option Verdict :=
+        match r with
+        | .ok fsql _ _ =>
+          if lexFast fsql != th then
+            some (bad "comment-escape" s!"FromCypher(stripLiterals={strip}) text (statement preceded by the Cypher text as -- comment) does not lex to the statement's tokens")
+          else match text with
+            | some t =>
+              if fsql != commentHeader t strip ++ sqlH then
+                some (bad "comment-header-model-mismatch" s!"FromCypher(stripLiterals={strip}) is not `-- ` + newline-rewritten Cypher text + \\n + statement")
+              else none
+            | none => none
+        | _ => none
+      match fcCheck c.fc c.cy false with
+      | some v => v
+      | none =>
+      match fcCheck c.fcs c.cys true with
+      | some v => v
+      | none =>
+      -- OutputBuilder.StripLiterals = true must not change the statement's tokens
+      match c.fmtstrip with
+      | .ok s2 _ _ => if lexFast s2 == th then okV else bad "format-option-changes-tokens" "OutputBuilder.StripLiterals=true changes the token structure of the statement"
+      | _ =>
+      -- OutputBuilder.MaterializeParameters = true on the whole statement: hostile and benign must agree the same way
+      match c.math, c.matb with
+      | .ok mh _ _, .ok mb _ _ =>
+        (match cmpOuter cfg [] [] (harnessArgs (lexFast mh)) (harnessArgs (lexFast mb)) 0 (lexFast mh) (lexFast mb) with
+         | .error (cls, d) => bad cls ("with materialised parameters (OutputBuilder.MaterializeParameters=true): " ++ d)
+         | .ok _ => okV)
+      | _, _ => okV
 
 def judgeCase (c : Case) : Verdict :=
   match c.h, c.b with
